@@ -278,7 +278,7 @@ PROPS["C15"]["clauses"]["bisync --dry-run"] = "run_bisync: opts.dry_run ==> the 
 PROPS["C15"]["trusted"] = COMMON_TRUST + PATH_TRUST + WORLD_TRUST
 
 SERVE_TWIN = dict(name="serve_sessions", repo_fn="src/bin/copia/serve.rs", quick=1, thorough=60, needs_cli=True,
-                  contract="16 deterministic sessions against one to three real `copia serve` processes on one root (interleavings forced by withholding content, holding the commit flock, or strace delay injection): refused Puts keep the stream in step, no path escapes, short content + EOF terminates, bad prologue touches nothing, oversize frame rejected, exactly one of two racing CAS Puts commits, committed means live, overlapping Puts never publish mixed bytes, Delete during Put loses nothing, leftover staging is not published, hash mismatch changes nothing, Get announces what it streams, hostile CBOR (huge declared lengths, deep nesting) under a 512 MiB limit neither kills nor hangs the server; thorough: plus random sequential programs against the compare-and-swap semantics and CONCURRENT random programs (barrier rounds, one server with flock delayed) through a linearizability check")
+                  contract="19 deterministic sessions against one to three real `copia serve` processes on one root (interleavings forced by withholding content, holding the commit flock, or strace delay injection): refused Puts keep the stream in step, no path escapes, short content + EOF terminates, bad prologue touches nothing, oversize frame rejected, exactly one of two racing CAS Puts commits, committed means live, overlapping Puts never publish mixed bytes, Delete during Put loses nothing, leftover staging is not published, hash mismatch changes nothing, Get announces what it streams, hostile CBOR (huge declared lengths, deep nesting) under a 512 MiB limit neither kills nor hangs the server, one file under two spellings (doc, ./doc) is still one compare-and-swap, request paths that spell the root itself never put anything outside it, long non-ASCII names are answered; thorough: plus random sequential programs against the compare-and-swap semantics and CONCURRENT random programs (barrier rounds, one server with flock delayed) through a linearizability check")
 SERVE_TRUST = COMMON_TRUST + [
     "Kani 0.68 + CBMC 6.11 for cas_decide (complete, loop-free, arbitrary 32-byte hashes) on the unedited wire.rs",
     "fs2 flock gives mutual exclusion across server processes; the standard argument 'atomic sections under one lock + CAS at lock acquisition ==> linearizable' is stated, not mechanised",
@@ -372,7 +372,7 @@ PROPS["C13"] = dict(
     level="proof",
     units=[dict(template="units/hub.rs", slice=["*"]), dict(template="units/hubclient.rs", slice=["*"])],
     twins=[dict(name="hub_sync_runs", repo_fn="src/bin/copia/hub.rs hub_sync + HubClient", quick=1, thorough=1, needs_cli=True,
-                contract="`copia hub-sync` on the real binary: a local tree lands on a quiet hub (identical bytes, other hub paths untouched, the file the hub already had is skipped, no conflict copy), an immediate second run sends nothing and changes nothing; with client A delayed (strace) between its List and its Put while client B commits the same path, B's content is not overwritten, A's file is kept as a conflict copy and A exits non-zero")],
+                contract="`copia hub-sync` on the real binary: a local tree lands on a quiet hub (identical bytes, other hub paths untouched, the file the hub already had is skipped, no conflict copy), an immediate second run sends nothing and changes nothing; with client A delayed (strace) between its List and its Put while client B commits the same paths, B's content is not overwritten, A's files are kept as conflict copies and A exits non-zero; `host:root` targets through an ssh stand-in land in ROOT (also when ROOT contains a colon) and nowhere else")],
     fallback_searches=["hub_sync"],
     clauses={
         "hub_sync": "the run's request log (ghost): first the List; afterwards ONLY Puts (then Bye), each for a local file whose listed hash differs from its own, carrying exactly that listed hash as `expected` (None if unlisted), the local fingerprint as content hash and the file root/rel as content; a file whose listed hash equals the local one is not sent; never a Delete; Ok ==> every local file the listing did not already match was Put and the hub answered committed:true; any conflict ==> Err",
@@ -388,7 +388,7 @@ PROPS["C13"] = dict(
     assumptions=["fewer than 2^64 local files", "the local tree does not change during the run"],
     not_decided=["sequences of runs by several clients: one run's contract plus the hub-side properties (C03, C10) give the statement by induction on runs - a paper argument; the stale-listing interleaving is exercised once, forced, by the twin",
                  "HubClient::connect / bye and split_target (host:root parsing) are not under contract",
-                 "the `host:root` target over SSH is not exercised (the twin uses a local hub path)"],
+                 "`host:root` targets are exercised by the run twin through an ssh stand-in (incl. roots containing a colon); split_target itself is not under contract"],
 )
 
 
